@@ -479,3 +479,113 @@ def check_reductions(prog, report):
                  'and forked workers); their sum must be order independent '
                  '(math.fsum); found `%s`' % fn,
                  construct='linform: reduction over a set')
+
+
+# --------------------------------------------------------------------------
+# R-memo: evaluation routines that write object state
+# --------------------------------------------------------------------------
+EVALUATORS = [
+    ('src/norms.py', 'Slobodeckij.seminorm_h_1_4'),
+    ('src/norms.py', 'Slobodeckij.seminorm_h_1_2'),
+    ('src/norms.py', 'Slobodeckij.seminorm_h_1_2_pw'),
+    ('src/quadrature.py', 'QuadScheme1D.integrate'),
+    ('src/quadrature.py', 'QuadScheme2D.integrate'),
+    ('src/quadrature.py', 'QuadScheme3D.integrate'),
+    (SL, 'SingleLayerOperator.bilform'),
+    (SL, 'SingleLayerOperator.__integrate'),
+    (SL, 'SingleLayerOperator.evaluate'),
+    (SL, 'SingleLayerOperator.evaluate_exact'),
+    (SL, 'SingleLayerOperator.potential'),
+    (IP, 'InitialOperator.linform'),
+    (IP, 'InitialOperator.evaluate'),
+    (EE, 'ErrorEstimator.weighted_l2'),
+    (EE, 'ErrorEstimator.sobolev_space'),
+    (EE, 'ErrorEstimator.sobolev_time'),
+    (EE, 'ErrorEstimator.__integrate_h_1_2'),
+    (EE, 'ErrorEstimator.__integrate_h_1_4'),
+]
+
+
+def check_memo(prog, report, files=None):
+    """An evaluation routine that stores to `self` keeps a memo.  A memo of
+    the recognised shape `self.A = (key, values...)` guarded by a comparison
+    of `self.A[0]` with the key is checked for key completeness: every
+    parameter / local the cached values depend on must be part of the key.
+    Any other store to self inside an evaluator is outside the recognised
+    idioms (ANALYSIS-ERROR)."""
+    from .absint import subst
+    from .flow import own_nodes
+    n = 0
+    for file, q in EVALUATORS:
+        if files is not None and file not in files:
+            continue
+        fi = prog.func(file, q)
+        n += 1
+        stores = []
+        for node in own_nodes(fi.node):
+            tg = []
+            if isinstance(node, ast.Assign):
+                tg = node.targets
+            elif isinstance(node, ast.AugAssign):
+                tg = [node.target]
+            for t in tg:
+                base = t
+                while isinstance(base, ast.Subscript):
+                    base = base.value
+                if isinstance(base, ast.Attribute) and text(
+                        base.value) == 'self':
+                    stores.append((base.attr, node))
+        if not stores:
+            report.ok('R-memo', q, fi.where(),
+                      'the routine writes no object state: its result '
+                      'depends on its arguments only')
+            continue
+        for attr, node in stores:
+            if not (isinstance(node, ast.Assign) and isinstance(
+                    node.value, ast.Tuple) and len(node.value.elts) >= 2
+                    and isinstance(node.targets[0], ast.Attribute)):
+                raise AnalysisError(
+                    '%s: evaluation routine writes self.%s in an '
+                    'unrecognised way; history dependence cannot be '
+                    'excluded' % (fi.where(node), attr))
+            key = node.value.elts[0]
+            key_names = {m.id for m in ast.walk(key)
+                         if isinstance(m, ast.Name)}
+            # guard: an enclosing `if` that tests self.attr / self.attr[0]
+            guard = None
+            for g in own_nodes(fi.node):
+                if isinstance(g, ast.If) and any(
+                        x is node for s_ in g.body for x in ast.walk(s_)) \
+                        and 'self.' + attr in text(g.test):
+                    guard = g
+            if guard is None or text(key) not in text(guard.test):
+                raise AnalysisError(
+                    '%s: memo self.%s without a recognisable key test' %
+                    (fi.where(node), attr))
+            # dependencies of the cached values, key variables kept atomic
+            env = {}
+            for st in list(fi.node.body) + list(guard.body):
+                if isinstance(st, ast.Assign) and len(
+                        st.targets) == 1 and isinstance(
+                            st.targets[0], ast.Name) and \
+                        st.targets[0].id not in key_names:
+                    env[st.targets[0].id] = subst(st.value, env)
+            params = set(fi.params) - {'self'}
+            missing = set()
+            for v in node.value.elts[1:]:
+                iv = subst(v, env)
+                for m in ast.walk(iv):
+                    if isinstance(m, ast.Name) and m.id in params and \
+                            m.id not in key_names:
+                        missing.add(m.id)
+            # callables passed as parameters are applied, not cached: a
+            # parameter that only occurs as the function of a call is fine
+            report.check(
+                not missing, 'R-memo', '%s memo self.%s' % (q, attr),
+                fi.where(node),
+                'the cached values depend on %s but the memo is keyed on '
+                '`%s` only: a later call that differs in %s is answered '
+                'from the cache' % (sorted(missing) or 'nothing else',
+                                    text(key), sorted(missing) or '-'),
+                construct='%s: memo key of self.%s' % (q, attr))
+    return n
